@@ -569,19 +569,29 @@ class C18(Prop):
             "files, a 70-300 KB file with the token at its end, runs longer than match_max_length, symlinks to files and "
             "directories, dangling links): subcommands scan / yr / save+load / save+yr -C, random subsets of "
             "-s -L -X -m -g -e -c -n -l -i -t --match-max-length --string-max-nb-matches -w --fail-on-warnings, threads "
-            "none/1..16, --no-mmap, -r, -N, -z, targets directory / single file / --scan-list (missing entries first, "
-            "duplicates, directories). Non-trivial: at least two files scanned and at least two stdout lines; distinct "
-            "by (options, target, rules, tree).")
+            "none/0/1..16, --no-mmap, -r, -N, -z, targets directory / single file / --scan-list (missing entries first, "
+            "duplicates, directories), -d defines over boundary values, rule-file names containing ':' with decoys, rules "
+            "that do not compile. Every ninth case is a controlled schedule: a scan list of named pipes under --no-mmap, "
+            "the driver observes how many workers read concurrently and chooses the completion order; stdout must then "
+            "be the exact sequence the model predicts. For uncontrolled runs stdout must be the model's multiset and an "
+            "interleaving of whole per-event blocks. Non-trivial: at least two files scanned and at least two stdout "
+            "lines; distinct by (options, target, rules, tree).")
     TRUSTED = ["Coq 8.16.1 kernel + vm_compute", "harness/src/bin/c18.rs (reads each file itself, scan_mem / "
                "scan_mem_with_callback)", "vlib/props/c18.py (materialises files, builds argv, splits stdout/stderr "
                "into lines, prints the case as a Gallina term; classifies list entries as file/directory; os.walk for "
                "the flat file list of the specification)",
                "clap's argv parsing is exercised, not modelled"]
-    ASSUMPTIONS = ["crossbeam bounded channel: every sent item is received by exactly one receiver; recv fails only "
-                   "when closed and empty (Model/Pool.v is a transition system with exactly these steps)",
-                   "termination of the pool is not proved (safety only: every terminal state has the right output)",
-                   "real thread schedules and mmap vs read are exercised at run time only (threads 1..16 x OS scheduling)",
-                   "-D, --scan-stats, process targets, console module output, compile diagnostics: not modelled"]
+    ASSUMPTIONS = ["crossbeam bounded channel: every sent item is received by exactly one receiver, FIFO; send blocks "
+                   "while the channel is full; recv fails only when closed and empty (Model/Pool.v is a transition "
+                   "system with exactly these steps)",
+                   "termination: proved for the model only (every schedule is finite and deadlock-free, given that each "
+                   "scan delivers finitely many events); that real scans, the OS and the walk terminate is not",
+                   "the library's callback API and result-list API agree (C05/C15); C18_render assumes it, the "
+                   "correspondence checks model and specification separately against the two APIs' actual answers",
+                   "real thread schedules and mmap vs read are exercised at run time only: OS scheduling with 1..16 "
+                   "workers, plus driver-controlled completion orders through named pipes",
+                   "-D, --scan-stats, process targets, console module output, compile diagnostics, the numeric value of "
+                   "a float -d define: not modelled; stderr is compared only for the four message kinds the model knows"]
 
     # ---------------------------------------------------------------- build the executable under test
     def repo_fingerprint(self):
@@ -976,6 +986,20 @@ class C18(Prop):
             inv = case["inv"]
             if "probe" in inv:
                 ctx.count("controlled-schedule")
+            def kinds(nodes):
+                out = set()
+                for nd in nodes:
+                    out.add(nd["k"])
+                    if nd["k"] == "file" and "fill" in nd:
+                        out.add("big-file")
+                    if nd["k"] == "file" and nd.get("hex") == "":
+                        out.add("empty-file")
+                    if nd["k"] == "dir":
+                        out |= kinds(nd["children"])
+                return out
+            if inv["target"]["kind"] != "file" and "probe" not in inv:
+                for kd in sorted(kinds(case["tree"]) - {"file", "dir"}):
+                    ctx.count("tree-has-" + kd)
             if case.get("defines"):
                 ctx.count("defines")
             if any(":" in rf["name"] for rf in case["rule_files"]):
